@@ -62,6 +62,10 @@ def fd_args(draw):
             tr = draw(S.tree_for(t))
         sig += t
         trees.append(tr)
+    if nh >= 2 and draw(st.integers(0, 2)) == 0:
+        # the same descriptor number passed in several arguments of one message (one pipe as stdout and stderr)
+        mod = draw(st.sampled_from([1, 2]))
+        trees = _replace_tokens(sig, trees, lambda t: tok + (t - tok) % mod)
     return sig, trees, nh
 
 
